@@ -14,6 +14,7 @@ func init() {
 			"label_format applies its renames in written order (a list, not a map); one label set has one stream key",
 			"PV-API Docker labels are stored one by one under KeyToLabel(key); render order (C15)",
 			"PV-CMP comparators are not differences",
+			"no unsafe.String; batch aggregators stateless",
 		},
 		NotDecided: []string{"the race detector's dynamic view", "ties in unstable sorts (the property excludes equal timestamps)", "64-bit hash collisions", "map stores inside a region are assumed to hit distinct keys (commutative)"},
 		Rules: func(r *Run) {
@@ -31,6 +32,8 @@ func init() {
 			ruleSanitiserSites(r) // two Docker labels are never merged into one map key by iteration order
 			ruleRender(r)
 			ruleComparatorsNoSubtraction(r, []string{cmdPkg, enginePkg, metricPkg, dockerlogPkg})
+			ruleNoUnsafeStrings(r, []string{enginePkg, dockerlogPkg})
+			ruleBatchAggregatorsStateless(r)
 		},
 	})
 }
